@@ -169,11 +169,15 @@ SPECIAL = {
     "dirichlet0-str": (True, False),  # "auto_periodic_dirichlet"
     "neumann0-str": (True, False),  # "auto_periodic_neumann"
     "explicit": (True, False),  # every axis spelled out: periodic axes "periodic", others derivative 0
-    "partial": (False, False),  # only the lower side of the first non-periodic axis (value 1.2)
+    # only the first non-periodic axis is specified (value 1.2 / derivative 0.5); periodic axes and further
+    # axes are left to the default that the class adds ("*": auto_periodic_neumann)
+    "partial-axis": (False, False),
+    # only the lower side of the first non-periodic axis (value 1.2); the other side is left to the default
+    "partial-side": (False, False),
 }
 
 ONE_KINDS = ["default", "dirichlet0-str", "val0/der0", "mixed0/val0", "val1.2/der0.5", "der1.2/val0.4",
-             "mixed/curv", "vexpr_t/dexpr_t", "partial"]
+             "mixed/curv", "vexpr_t/dexpr_t", "partial-axis", "partial-side"]
 ONE_KINDS_PERIODIC = ["default", "dirichlet0-str", "explicit"]
 ONE_KINDS_SET_C = ["default", "val1.2/der0.5"]
 PAIR_KINDS = [("val0", "der0"), ("der0", "val0"), ("val1.2", "der1.2"), ("der1.2", "val1.2"), ("val0.8", "curv0.8"),
@@ -220,14 +224,16 @@ def bc_spec(geo, kind):
         if kind == "explicit":
             given = {k: (dict(v) if isinstance(v, dict) else v) for k, v in full.items()}
         return given, full
-    if kind == "partial":
+    if kind in ("partial-axis", "partial-side"):
         given, full = {}, {}
         for a, name in enumerate(geo["axes"]):
             if geo["periodic"][a]:
-                given[name] = full[name] = "periodic"
+                full[name] = "periodic"
             elif a == free[0]:
                 given[name + "-"] = {"value": 1.2}
                 full[name + "-"], full[name + "+"] = {"value": 1.2}, {"derivative": 0}
+                if kind == "partial-axis":
+                    given[name + "+"], full[name + "+"] = {"derivative": 0.5}, {"derivative": 0.5}
             else:
                 full[name] = {"derivative": 0}
         return given, full
@@ -446,6 +452,26 @@ def class_case(case):
         return FieldCollection([ScalarField(grid, d[i]) for i in range(nf)])
 
     state0 = mkstate(np.zeros(M))
+    if ka == "partial-side":
+        # the default "*": "auto_periodic_neumann" that set_default_bc adds cannot complete an axis of
+        # which only one side is given: every route refuses loudly (BCDataError) - not a wrong rate
+        from pde.grids.boundaries.local import BCDataError
+
+        refused = []
+        for route in (lambda: eq.evolution_rate(state0.copy(), 0.0), lambda: eq.make_pde_rhs(state0, backend="numba")):
+            try:
+                route()
+                refused.append(False)
+            except BCDataError:
+                refused.append(True)
+        if all(refused):
+            return {"nt": False, "n": 2, "out": "refused", "ref_only": True,
+                    "ref": "one side of an axis given, other side left to the class default: BCDataError "
+                           "('auto_periodic_neumann' not defined)"}
+        if any(refused):
+            return {"n": 2, "v": [{"sig": f"{name}|{fam}|same BC|only some routes refuse a one-sided specification",
+                                   "msg": f"{name} bc={kw.get('bc')}: refused by (evolution_rate, compiled) = {refused}",
+                                   "detail": None}]}
     rhs = {b: eq.make_pde_rhs(state0, backend=b) for b in ("numpy", "numba")}
     # ---- R3
     do3, why3 = r3_rule(name, same_bc, hom)
@@ -886,6 +912,8 @@ def class_cases(grids, seed):
                 if pset == "C":
                     ones = [k for k in ones if k in ONE_KINDS_SET_C]
                     pairs = []
+                if geo["num_axes"] == 1:
+                    ones = [k for k in ones if k != "partial-axis"]  # identical to val1.2/der0.5 on one axis
                 for k in ones:
                     bc = ["default"] if k == "default" else ["one", k]
                     cases.append({"cls": name, "pset": pset, "fam": fam.split("#")[0], "grid": spec, "bc": bc, "seed": seed})
